@@ -10,3 +10,4 @@ import Zeno.Props.C15
 import Zeno.Props.C04
 import Zeno.Props.C05
 import Zeno.Props.C06
+import Zeno.Props.C08
